@@ -10,6 +10,8 @@ def jobs(tier):
         nn = 2 ** (d + 1) - 1
         us = ['%s:%d' % (f, d + 2) for f in REC]   # the recursion of the code under test is bounded by the depth of the model DOM (+1 for the leaf call, +1 slack checked by the unwinding assertion)
         for h, desc in (('h_apply', 'apply_merge_patch == RFC 7386 MergePatch'), ('h_diff', 'apply(source, from_diff(source, target)) == target for targets without null members')):
-            J.append(dict(id='%s_d%d' % (h[2:], d), harness=h, props=['C16'], unwind=nn + 2, unwindset=us, defs=dict(DEPTH=d), shim_defs=dict(DEPTH=d), timeout=1800 if d > 2 else 900, mem_gb=8,
+            if h == 'h_diff' and d > 2:
+                continue   # measured: apply at depth 3 decides in 19 min, from_diff o apply at depth 3 gives no verdict in 30 min (stated outside the bound)
+            J.append(dict(id='%s_d%d' % (h[2:], d), harness=h, props=['C16'], unwind=nn + 2, unwindset=us, defs=dict(DEPTH=d), shim_defs=dict(DEPTH=d), timeout=2400 if d > 2 else 900, mem_gb=12 if d > 2 else 8,
                           desc=desc, bound='all trees of depth <= %d over member names {a,b}, leaves null/0/1/{}' % d))
     return J
